@@ -2,6 +2,7 @@
 package props
 
 import (
+	"encoding/base64"
 	"fmt"
 	"math/bits"
 	"reflect"
@@ -503,4 +504,26 @@ func (g *G) genGroupSetup() *world.TxStep {
 		panic(err)
 	}
 	return &world.TxStep{Msgs: []world.MsgJSON{world.EncodeMsg(msg)}, Signers: []simnet.SignerSpec{{Acct: admin}}, Fee: g.fee("fee"), Note: "create-group-with-policy"}
+}
+
+// genProbeReads draws 1-4 client queries out of the probe set (every single-item query and
+// listing the models know of), issued at any moment -- also between the transactions of a
+// block -- against the latest state or an earlier height. They carry no oracle of their own:
+// reads must not influence what later reads of the latest state return, which the per-commit
+// oracles then observe.
+func (g *G) genProbeReads() *world.Step {
+	ps := g.W.ProbeSet()
+	if len(ps) == 0 {
+		return &world.Step{Kind: "commit", DT: int64(1 + g.intn("dt", 100000))}
+	}
+	var qs []world.QueryStep
+	for n := 1 + g.intn("nreads", 4); n > 0; n-- {
+		p := ps[g.intn("probe", len(ps))]
+		q := world.QueryStep{Path: p.Path, Data: base64.StdEncoding.EncodeToString(p.Req)}
+		if h := g.W.C.Height; h > 1 && g.chance("earlier-height", 60) {
+			q.Height = 1 + int64(g.intn("height", int(h)))
+		}
+		qs = append(qs, q)
+	}
+	return &world.Step{Kind: "queries", Queries: qs}
 }
